@@ -593,7 +593,9 @@ func GenFragType(r *rand.Rand, depth int) string {
 		}
 		return "Hash[" + sub() + ", " + sub() + ", " + fragSizeText(r, true) + "]"
 	}
-	switch r.Intn(6) {
+	switch r.Intn(9) {
+	case 6, 7, 8:
+		return fragStruct(r, sub)
 	case 0:
 		return "Collection[default]"
 	case 1, 2, 3:
@@ -634,6 +636,79 @@ func GenFragType(r *rand.Rand, depth int) string {
 	}
 	return "Collection[" + fragSizeText(r, true) + "]"
 }
+
+// fragKeyName: a non-empty member name, as a bareword or a quoted string of any content the text quoting can carry
+func fragKeyName(r *rand.Rand) string {
+	if r.Intn(2) == 0 {
+		return words[r.Intn(len(words))]
+	}
+	s := fragString(r)
+	if s == "" {
+		s = "k"
+	}
+	return sq(s)
+}
+
+// fragStruct draws a Struct type expression: every key form the creator reads (bare name, quoted name, Optional[n],
+// NotUndef[n], String[n]) over value types that accept and that refuse undef, in the surface forms of the parameter list
+func fragStruct(r *rand.Rand, sub func() string) string {
+	n := r.Intn(4)
+	xs := make([]string, n)
+	for i := range xs {
+		k := fragKeyName(r)
+		if i > 0 && r.Intn(6) == 0 {
+			k = strings.SplitN(xs[i-1], " => ", 2)[0] // a duplicate key (kept by the creator)
+			if strings.ContainsAny(k, "[") {
+				k = fragKeyName(r)
+			}
+		}
+		switch r.Intn(6) {
+		case 0:
+			k = "Optional[" + k + "]"
+		case 1:
+			k = "NotUndef[" + k + "]"
+		case 2:
+			k = "String[" + k + "]"
+		}
+		v := sub()
+		switch r.Intn(8) {
+		case 0:
+			v = "Optional[" + v + "]"
+		case 1:
+			v = "Variant[" + v + ", Undef]"
+		case 2:
+			v = []string{"Any", "Undef", "Data", "RichData", "Init", "Unit", "Optional", "NotUndef", "Variant", "Default", "Struct"}[r.Intn(11)]
+		case 3:
+			v = "NotUndef[" + v + "]"
+		}
+		xs[i] = k + " => " + v
+	}
+	body := strings.Join(xs, ", ")
+	switch r.Intn(8) {
+	case 0:
+		return "Struct[[{" + body + "}]]"
+	case 1:
+		if n > 0 {
+			return "Struct[" + body + "]" // `x => y` directly inside the brackets is a hash
+		}
+	case 2:
+		if n == 0 {
+			return "Struct[[]]"
+		}
+	}
+	return "Struct[{" + body + "}]"
+}
+
+// StructKeyForms / StructValueTypes: the exhaustive small universe of Struct members (key form x value type; the value
+// types cover every answer of "accepts undef" the fragment can give)
+var StructKeyForms = []string{"a", "'a'", "\"a\"", "Optional[a]", "Optional['a']", "NotUndef[a]", "NotUndef['a']", "String[a]", "String['a']", "'x y'", "Optional['it\\'s']", "NotUndef['\\\\']"}
+
+var StructValueTypes = []string{"Integer", "Any", "Unit", "Undef", "Default", "Data", "RichData", "Init", "Scalar", "String", "Optional", "NotUndef", "Variant", "Struct", "Type", "Iterator",
+	"Optional[Integer]", "NotUndef[Any]", "NotUndef[Undef]", "NotUndef[Optional[Integer]]", "NotUndef[Unit]", "Variant[Integer, Undef]", "Variant[Integer, String]",
+	"Variant[Integer, Variant[Undef, String]]", "Variant[Unit, Integer]", "Variant[Data, Integer]", "Variant[Optional[Integer], String]", "Variant[Undef]", "Optional['x']", "NotUndef['x']",
+	"Type[Undef]", "Sensitive[Undef]", "Iterable[Undef]", "Iterator[Undef]", "Array[Undef]", "Hash[Undef, Undef]", "Tuple[Undef]", "Tuple[Undef, 0, 1]", "Collection[0, 0]", "Enum[a]", "Integer[0, 1]",
+	"String[1]", "Boolean[true]", "Regexp[/a/]", "Pattern[/a/]", "Array[0, 0]", "Hash[0, 0]", "Struct[{a => Undef}]", "Struct[{Optional[a] => Undef}]", "Struct[{a => Optional[Struct]}]",
+	"Optional[Unit]", "Optional[NotUndef]", "Optional[Struct[{b => Any}]]"}
 
 func isASCII(s string) bool {
 	for _, c := range s {
